@@ -69,7 +69,26 @@ def gen_molspec(rs, n, nres=None, noletter=0.0, resname_pool=None):
     return {"atoms": atoms, "pos": pos.tolist(), "bonds": [list(b) for b in bonds]}
 
 
+_BUILDS = [0]
+
+
+def purge_tmp(every=600):
+    """called between cases only (nothing built earlier is still in use): keeps molgen's scratch directory small,
+    a directory with 1e5 files makes every file operation and the exit clean-up slow"""
+    import os
+    if _BUILDS[0] < every:
+        return
+    _BUILDS[0] = 0
+    d = molgen.tmpdir()
+    for f in os.listdir(d):
+        try:
+            os.remove(os.path.join(d, f))
+        except OSError:
+            pass
+
+
 def build(spec, molname="MOL"):
+    _BUILDS[0] += 1
     return molgen.make_molecule(molname, [tuple(a) for a in spec["atoms"]], np.array(spec["pos"], dtype=float),
                                 [tuple(b) for b in spec["bonds"]])
 
@@ -766,6 +785,7 @@ def correspondence(ctx):
     n_align = ctx.n(700, 9000)
     align_cases = [dict(c) for c in CORPUS_ALIGN] + [gen_align_case(rs) for _ in range(n_align)]
     for case in align_cases:
+        purge_tmp()
         obs = run_align(case)
         term = "chk_align %s %s %s %s %s %s %s" % (
             t_mol(case["start"], 0), t_mol(case["end"], 100),
@@ -833,6 +853,7 @@ def correspondence(ctx):
 
     # ---- protein guesser
     for _ in range(ctx.n(250, 3000)):
+        purge_tmp()
         s1, s2, kind = gen_protein_pair(rs)
         o = run_protein(s1, s2)
         obs = "(Err %s)" % o["err"] if "err" in o else "(Ok %s)" % t_nn_list(o["ok"])
@@ -847,6 +868,7 @@ def correspondence(ctx):
     n_sys = ctx.n(40, 400)
     untraceable = 0
     for _ in range(n_sys):
+        purge_tmp()
         sysspec = gen_system(rs)
         man = build_manager(sysspec)
         names_mc = list(man.molecule_correspondence)
@@ -972,6 +994,7 @@ def oracle(ctx, scale):
     fails = 0
     n = ctx.n(400, 5000) * scale
     for _ in range(n):
+        purge_tmp()
         case = gen_align_case(rs)
         bad = oracle_align(case)
         ctx.count(("salign", json.dumps(case, sort_keys=True)), bool(case["restr"]) or case["restr"] is None)
@@ -1000,6 +1023,7 @@ def oracle(ctx, scale):
         S["residue_exhaustive_40x40"] = 1600
     npz = ctx.n(150, 2000) * scale
     for _ in range(npz):
+        purge_tmp()
         s1, s2, _kind = gen_protein_pair(rs)
         bad = oracle_protein(s1, s2)
         ctx.count(("sprot", json.dumps(s1), json.dumps(s2)), True)
@@ -1010,6 +1034,7 @@ def oracle(ctx, scale):
     nm = ctx.n(25, 250) * scale
     cntm = 0
     for _ in range(nm):
+        purge_tmp()
         sysspec = gen_system(rs)
         man = build_manager(sysspec)
         for _k in range(6):
